@@ -9,6 +9,7 @@ import (
 	_ "embed"
 	"encoding/json"
 	"fmt"
+	"path/filepath"
 	"regexp"
 	"sort"
 	"strings"
@@ -261,6 +262,15 @@ func c17Observe(c *Ctx, files map[string]string, mode string, cf c17Conf, tag st
 	opts := ServerOpts{Tag: tag}
 	events := strings.HasSuffix(mode, "+events")
 	mode = strings.TrimSuffix(mode, "+events")
+	// +folder2: a second workspace folder next to the main one, with files whose folder-relative paths equal those of the main
+	// folder (zoo1.lua, sub/zoo2.lua, sub/deep/zoo3.lua); the analysis-ignore rules are rules of the main folder
+	folder2 := strings.HasSuffix(mode, "+folder2")
+	mode = strings.TrimSuffix(mode, "+folder2")
+	if folder2 {
+		f["../second/zoo1.lua"] = zooFile(5)
+		f["../second/sub/zoo2.lua"] = zooFile(6)
+		f["../second/sub/deep/zoo3.lua"] = zooFile(7)
+	}
 	switch mode {
 	case "init":
 		opts.Init = cf.initOptions()
@@ -278,6 +288,9 @@ func c17Observe(c *Ctx, files map[string]string, mode string, cf c17Conf, tag st
 	}
 	ws := c.NewWorkspace(f)
 	opts.Root = ws.Root
+	if folder2 {
+		opts.Folders = []string{ws.Root, filepath.Join(filepath.Dir(ws.Root), "second")}
+	}
 	srv, err := StartServer(opts)
 	if err != nil {
 		msg := err.Error()
@@ -450,7 +463,7 @@ func runC17(c *Ctx) {
 	}
 	// baselines per delivery mode
 	base := map[string]c17View{}
-	for _, mode := range []string{"init", "change", "json", "init+events"} {
+	for _, mode := range []string{"init", "change", "json", "init+events", "init+folder2", "init+folder2+events"} {
 		v, ws, err := c17Observe(c, zoo, mode, all, "c17base"+mode)
 		if err != nil {
 			c.Inconclusive("baseline run failed: " + err.Error())
@@ -496,6 +509,14 @@ func runC17(c *Ctx) {
 		}
 		if len(jobs)%3 == 1 || (cf.IgnoreFile != nil && len(jobs)%2 == 0) {
 			jobs = append(jobs, job{cf, "init+events"})
+		}
+		if cf.IgnoreErr == nil && (cf.IgnoreFile != nil || len(jobs)%5 == 0) {
+			// two workspace folders (flags and analysis-ignore rules only: the documentation does not say what the
+			// diagnostics-ignore patterns are matched against outside the main folder)
+			jobs = append(jobs, job{cf, "init+folder2"})
+			if len(jobs)%2 == 0 {
+				jobs = append(jobs, job{cf, "init+folder2+events"})
+			}
 		}
 		if len(cf.IgnoreErr) != 1 || (cf.IgnoreErr[0] != "(" && cf.IgnoreErr[0] != "[" && cf.IgnoreErr[0] != "*") {
 			jobs = append(jobs, job{cf, "json"})
